@@ -76,14 +76,16 @@ def ensure_built(need_race=False, need_386=False):
     fcntl.flock(lock, fcntl.LOCK_EX)
     try:
         # translators
-        for tool in ('constgen', 'effgen'):
+        for tool in ('constgen', 'limbgen', 'effgen'):
             src = V + '/tools/' + tool
             if not os.path.isdir(src):
                 continue
             if tool == 'effgen' and 'Gen/EffectsIR.v' not in open(COQ + '/_CoqProject').read():
                 continue
+            if tool == 'limbgen' and 'Gen/FfRoutines.v' not in open(COQ + '/_CoqProject').read():
+                continue
             exe = BIN + '/' + tool
-            if not os.path.exists(exe) or any(newer(os.path.join(src, f), exe) for f in os.listdir(src)):
+            if not os.path.exists(exe) or any(newer(os.path.join(src, f), exe) for f in os.listdir(src) if f.endswith('.go')):
                 rc, out, _ = sh('go build -o %s .' % exe, cwd=src, env=GOENV)
                 if rc != 0:
                     raise SystemExit('cannot build %s:\n%s' % (tool, out))
@@ -212,16 +214,30 @@ def run_cases(lines, tag, exe='harness', flags='', timeout=1800):
     os.makedirs(WORK, exist_ok=True)
     path = '%s/%s.cases' % (WORK, tag)
     with open(path, 'w') as f:
-        f.write('\n'.join(lines) + '\n')
-    rc, out, dt = sh('%s/%s %s %s' % (BIN, exe, flags, path), timeout=timeout)
+        f.write('\n'.join(l.lstrip('!') for l in lines) + '\n')
+    outp = '%s/%s.%s.out' % (WORK, tag, exe)
+    if os.path.exists(outp):
+        os.remove(outp)
+    rc, log, dt = sh('%s/%s %s -out %s %s' % (BIN, exe, flags, outp, path), timeout=timeout)
+    try:
+        out = open(outp).read()
+    except OSError:
+        out = ''
+    LAST_LOG[0] = log
     return rc, out.split('\n'), dt
 
 
+LAST_LOG = ['']
+
+
+def _unused():
+    return None
+
+
 def run_model(lines, tag, timeout=3600):
-    path = '%s/%s.cases' % (WORK, tag)
-    if not os.path.exists(path):
-        with open(path, 'w') as f:
-            f.write('\n'.join(lines) + '\n')
+    path = '%s/%s.mcases' % (WORK, tag)
+    with open(path, 'w') as f:
+        f.write('\n'.join(('skip' if l.startswith('!') else l) for l in lines) + '\n')
     rc, out, dt = sh('%s/driver %s %s' % (BIN, TABLES, path), timeout=timeout)
     return rc, out.split('\n'), dt
 
@@ -232,6 +248,8 @@ def compare(cases, impl, model, project=None):
     for i, (line, cls) in enumerate(cases):
         a = impl[i] if i < len(impl) else 'MISSING'
         m = model[i] if i < len(model) else 'MISSING'
+        if m == 'UNKNOWN-OP' and line.startswith('!'):
+            continue
         if project:
             a2, m2 = project(line, a), project(line, m)
         else:
@@ -302,6 +320,7 @@ def gen_C02_phase2(rng, tier):
 
 def gen_C03(rng, tier):
     out = []
+    _done = set()
     sm = M.small_order_points()
     sigs = honest_sigs(rng, tier, 2 if tier == 'quick' else 12)
     other = {'p': 'm', 'm': 'p'}
@@ -360,6 +379,13 @@ def gen_C03(rng, tier):
                 out.append((vline(dg, A2, m, R2, S2), 'mixed-order-key/' + ('equation-holds' if T2 == (0, 1) else 'R8-has-small-component')))
                 R3 = M.ed_add(M.ed_mul(rr, M.B8), M.ed_mul((-((8 * hm) % M.L)) % 8, T))
                 out.append((vline(dg, A2, m, R3, S2), 'mixed-order-key/shifted-R8'))
+        # exhaustive small grid: keys and nonce points of small order, S in {0, 1}
+        if dg + 'grid' not in _done:
+            _done.add(dg + 'grid')
+            for Asm in sm:
+                for Rsm in sm:
+                    for S0 in (0, 1):
+                        out.append((vline(dg, Asm, m, Rsm, S0), 'small-order-grid'))
         # off-curve / random group elements
         out.append((vline(dg, pk, m, (R8[0], (R8[1] + 1) % M.Q), S), 'R8-off-curve'))
         out.append((vline(dg, (0, 1), m, R8, S), 'A=identity'))
@@ -480,6 +506,10 @@ def main():
             cases = [(l, 'replay') for l in rp.get('lines', [])]
         elif pid in SIMPLE:
             cases = SIMPLE[pid](rng, tier)
+            if tier == 'thorough':
+                # plus four further seeds of the quick-size stream (different boundary mixes)
+                for k in range(1, 5):
+                    cases += SIMPLE[pid](random.Random(seed * 7919 + 104729 * k + int(pid[1:])), 'quick')
         elif pid == 'C02':
             cases = gens.gen_C02(rng, tier) + gen_C02_phase2(rng, tier)
         elif pid == 'C03':
@@ -489,12 +519,18 @@ def main():
         elif pid in ('C16', 'C17'):
             hist = history_lines(rng, tier)
             cases = [c for h in hist for c in h]
+            if pid == 'C17':
+                # work that a lazily initialised / memoised implementation would build on first use:
+                # the concurrent pass runs BEFORE any sequential call ('!': implementation + oracle only)
+                first = [('!mimc7g %d %d %d' % (rng.randrange(M.Q), rng.randrange(M.Q), n), 'first-use/mimc7-rounds') for n in range(95, 700, 11)]
+                first += [('!mimchashg %d [%d,%d] %d' % (rng.randrange(M.Q), rng.randrange(M.Q), rng.randrange(M.Q), n), 'first-use/mimc7-rounds') for n in range(100, 400, 37)]
+                first += [('mulB8 %d' % rng.randrange(M.L), 'first-use/B8') for _ in range(8)]
+                first += [('poseidon 0 1 %s' % M.lst([rng.randrange(M.Q) for _ in range(n)]), 'first-use/poseidon-width') for n in range(1, 17)]
+                cases = first + cases
             extra['histories'] = len(hist)
         lines = [c[0] for c in cases]
-        flags = ''
+        flags = '-purity'
         exe = 'harness'
-        if pid == 'C16':
-            flags = '-purity'
         if pid == 'C17':
             exe = 'harness_race'
             flags = '-conc %d -rounds %d' % ((16, 1) if tier == 'quick' else (64, 2))
@@ -503,24 +539,25 @@ def main():
         extra['impl_wall_s'] = round(dt_i, 2)
         extra['model_wall_s'] = round(dt_m, 2)
         project = proj_sqrt if pid in ('C18', 'C16', 'C17') else None
-        if pid == 'C16':
-            # flags are checked separately below
-            impl_clean = [re.sub(r' (MUTATED:\S+|REPEAT-DIFF)', '', x) for x in impl]
+        FL = r' (MUTATED:\S+|REPEAT-DIFF|RESULT-CHANGED)'
+        if pid != 'C17':
+            # purity flags (argument / package state modified, result changed by a later call,
+            # repeated call differs) are violations whatever the property under check
+            impl_clean = [re.sub(FL, '', x) for x in impl]
             mism = compare(cases, impl_clean, model, project)
             for i, x in enumerate(impl[:len(cases)]):
-                if 'MUTATED' in x or 'REPEAT-DIFF' in x:
-                    violations.append(('operation is not pure: %s -> %s' % (lines[i], x[-80:]), dict(kind='purity', lines=lines[max(0, i - 5):i + 1], output=x)))
+                if re.search(FL, x):
+                    violations.append(('operation is not pure: %s -> %s' % (lines[i][:150], x[-60:]), dict(kind='purity', lines=lines[max(0, i - 5):i + 1], output=x)))
+            impl = impl_clean
         elif pid == 'C17':
             mism = compare(cases, impl, model, project)
             tail = '\n'.join(impl[len(cases):])
             if 'CONC-DIFF' in tail:
                 violations.append(('result differs under concurrency', dict(kind='conc', lines=lines, output=tail[:4000])))
-            if 'DATA RACE' in tail or 'DATA RACE' in '\n'.join(impl) or rc_i == 66:
-                violations.append(('race detector report', dict(kind='race', lines=lines, output='\n'.join(impl)[-6000:])))
+            if 'DATA RACE' in LAST_LOG[0] or rc_i == 66:
+                violations.append(('race detector report', dict(kind='race', lines=lines[:200], output=LAST_LOG[0][:6000])))
             if 'CONC-DONE' not in tail:
                 violations.append(('concurrent run did not complete (rc=%d)' % rc_i, dict(kind='conc', lines=lines, output=tail[-3000:])))
-        else:
-            mism = compare(cases, impl, model, project)
         if rc_i not in (0, 66) and pid != 'C17':
             notes.append('harness exit code %d' % rc_i)
             violations.append(('harness crashed (rc=%d)' % rc_i, dict(kind='crash', lines=lines[:50], output='\n'.join(impl)[-3000:])))
@@ -545,11 +582,11 @@ def main():
         violations += predicates(pid, cases, impl)
         # third voice: the specification evaluated independently (gen/oracle.py)
         orc_cov, orc_bad = 0, []
-        impl_cmp = [re.sub(r' (MUTATED:\S+|REPEAT-DIFF)', '', x) for x in impl]
+        impl_cmp = [re.sub(r' (MUTATED:\S+|REPEAT-DIFF|RESULT-CHANGED)', '', x) for x in impl]
         for i, (line, cls) in enumerate(cases):
             if i >= len(impl_cmp):
                 break
-            e = ORC.oracle(line)
+            e = ORC.oracle(line.lstrip('!'))
             if e is not None:
                 orc_cov += 1
                 if e != impl_cmp[i]:
@@ -807,7 +844,7 @@ def predicates(pid, cases, impl):
                     bad(i, 'decompressed point is not a canonical curve point')
                 elif M.compress((x, y)) != bytes.fromhex(t[1][1:]):
                     bad(i, 'decompressed point does not compress back to the input')
-            if pid in ('C03', 'C14') and op.startswith('verify') and cls != 'honest' and not cls.startswith('verify-honest') and not cls.startswith('mixed-order-key') and not cls.startswith('S=0-valid') and o != 'ERR':
+            if pid in ('C03', 'C14') and op.startswith('verify') and cls != 'honest' and not cls.startswith('verify-honest') and not cls.startswith('mixed-order-key') and not cls.startswith('S=0-valid') and cls != 'small-order-grid' and o != 'ERR':
                 if pid == 'C14' or cls not in ('altered-S',):
                     bad(i, 'verification did not reject (%s) a %s signature' % (o, cls))
             if pid in ('C02', 'C03', 'C14') and (cls == 'honest' or cls.startswith('verify-honest')) and o != 'ok':
